@@ -18,7 +18,9 @@ META = dict(
         category="proof",
         text="Lean 4 theorems over all graphs with try blocks (any nesting, any handler subset, failing handlers, bodies failing "
              "at any command or spawning nested tasks) and all schedules: success_iff_body_ok, fail_iff_body_err, finally_always, "
-             "handlers_after_body_and_spawned, body_failure_contained (a task / the root reports an error exactly when a task of "
+             "body_ok_iff_completed_or_stopped (a body closes ok only if every command completed or it cleanly stopped its own "
+             "scope - Cmd.stop - and what was entered completed; a body with a failing position - returned error, unknown "
+             "command name, truncated text - never closes ok), handlers_after_body_and_spawned, body_failure_contained (a task / the root reports an error exactly when a task of "
              "the same context closed with one, and a task closes with an error only with a cause in its own or the root "
              "context); the `if` directions with a TIMED excuse: handler_starts_unless_prior_cause / "
              "finally_starts_unless_prior_cause (a handler that has to run has started when the owner closes, or the trace "
